@@ -1213,12 +1213,26 @@ fn run_lend(ms: Vec<DynLendN<'_>>, arg: i64) -> Out {
     enc_rows(rows)
 }
 
-fn run_par(ms: Vec<DynPar<'_>>, threads: usize) -> Out {
+fn run_par(ms: Vec<DynPar<'_>>, arg: usize) -> Out {
+    // arg >= 1024: the consumer of every item itself runs a (read-only) parallel join on the same pool
+    let nested = arg >= 1024;
+    let threads = if nested { arg - 1024 } else { arg };
     let pool = specs::rayon::ThreadPoolBuilder::new().num_threads(threads).build().expect("thread pool");
     let rows: Mutex<Vec<Vec<Item>>> = Mutex::new(Vec::new());
+    let mut probe = specs::hibitset::BitSet::new();
+    for i in 0..300u32 {
+        probe.add(i * 7);
+    }
     with_tuple!(ms, t => {
         pool.install(|| {
-            t.par_join().for_each(|x| rows.lock().unwrap().push(x.into_items()));
+            t.par_join().for_each(|x| {
+                let items = x.into_items();
+                if nested {
+                    let n = (&probe).par_join().count();
+                    std::hint::black_box(n);
+                }
+                rows.lock().unwrap().push(items);
+            });
         })
     });
     drop(pool);
@@ -1267,7 +1281,7 @@ pub fn op_join(world: &mut World, xs: &mut St, p: &[i64]) -> Out {
     let arg_ok = match kind {
         0 => arg >= -1,
         1 => arg >= -2,
-        2 => (0..=256).contains(&arg),
+        2 => (0..=640).contains(&arg) || (1024..=1024 + 64).contains(&arg),
         3 => arg >= 0 && (arg as usize) < xs.hs.len(),
         _ => (0..=u32::MAX as i64).contains(&arg),
     };
